@@ -582,6 +582,10 @@ impl World {
     }
     /// `with_engine = false`: the vAMM is deployed without any margin engine configured
     pub fn instantiate_vamm_with(&mut self, decimals: u8, with_engine: bool) -> Addr {
+        self.instantiate_vamm_opts(decimals, with_engine, true)
+    }
+    /// `with_ins = false`: deployed without an insurance fund configured either
+    pub fn instantiate_vamm_opts(&mut self, decimals: u8, with_engine: bool, with_ins: bool) -> Addr {
         let d = pow10(decimals);
         let id = self.app.store_code(c_vamm());
         let v = self
@@ -601,7 +605,7 @@ impl World {
                     fluctuation_limit_ratio: Uint128::zero(),
                     pricefeed: self.feed.to_string(),
                     margin_engine: if with_engine { Some(self.engine.to_string()) } else { None },
-                    insurance_fund: Some(self.ins.to_string()),
+                    insurance_fund: if with_ins { Some(self.ins.to_string()) } else { None },
                 },
                 &[],
                 "vamm-extra",
@@ -794,6 +798,19 @@ impl World {
         match symrt::catch(|| app.wrap().query_wasm_smart::<T>(to.clone(), msg)) {
             Ok(Ok(v)) => Ok(v),
             Ok(Err(e)) => Err(format!("{}", e)),
+            Err(p) => Err(p),
+        }
+    }
+    /// a smart query given and answered as raw JSON bytes (any message shape)
+    pub fn q_raw(&self, to: &Addr, msg_json: Vec<u8>) -> Result<Vec<u8>, String> {
+        use cosmwasm_std::{ContractResult, Empty, Querier, QueryRequest, SystemResult, WasmQuery};
+        let req: QueryRequest<Empty> = QueryRequest::Wasm(WasmQuery::Smart { contract_addr: to.to_string(), msg: Binary::from(msg_json) });
+        let bin = cosmwasm_std::to_vec(&req).map_err(|e| e.to_string())?;
+        let app = &self.app;
+        match symrt::catch(|| app.raw_query(&bin)) {
+            Ok(SystemResult::Ok(ContractResult::Ok(b))) => Ok(b.0),
+            Ok(SystemResult::Ok(ContractResult::Err(e))) => Err(e),
+            Ok(SystemResult::Err(e)) => Err(format!("{}", e)),
             Err(p) => Err(p),
         }
     }
